@@ -18,7 +18,9 @@ def install_integer_to_bytes(reg):
     reg.add(Contract(INT + '.to_bytes', params={'block_size': 'int', 'byteorder': "enum('big','little')"}, requires=['block_size > 0'],
                      raises={'ValueError': ('iff', 'self._value < 0 or self._value >= pow2(8 * block_size) or byteorder not in ("big", "little")')},
                      returns='(i2osp(self._value, block_size) if byteorder == "big" else i2le(self._value, block_size))',
-                     modifies=[], options={'exact': True}, result='bytes',
+                     # the most significant octet of the n-octet encoding is value div 256^(n-1)  (definition of I2OSP, RFC 8017 4.1)
+                     ensures={'msb_octet': 'nth(result, 0 if byteorder == "big" else block_size - 1) == self._value // pow2(8 * (block_size - 1))'},
+                     modifies=[], result='bytes',
                      assumed='Integer.to_bytes(n > 0) == I2OSP(value, n) / its little-endian twin, ValueError when it does not fit; ' + BIGINT))
 
 
@@ -123,7 +125,7 @@ def units(prop, tier):
         for cid in EC.ALL_CIDS:
             out.append(pyvc_unit(prop, 'dh.ecdh.%s' % EC.LABEL[cid], lambda cid=cid: registry(cid, tier),
                                  [D + '_compute_ecdh', H + 'ecdh_both_parties']))
-            # the role matrix is curve-independent Python: the quick tier runs it on one curve of each encoding family
+            # the role matrix is curve-independent Python (the encodings are dh.ecdh.*): the quick tier runs it on P-256, thorough on all nine
             out.append(pyvc_unit(prop, 'dh.agreement.%s' % EC.LABEL[cid], lambda cid=cid: registry(cid, tier), [D + 'key_agreement'], weight=4,
-                                 tiers=('quick', 'thorough') if cid in (3, 8) else ('thorough',)))
+                                 tiers=('quick', 'thorough') if cid == 3 else ('thorough',)))
     return out
